@@ -10,6 +10,9 @@ Decided:
  T3 release-once idioms: every Box::from_raw (Unleak) is fed from private state consumed on the same path
     (Option::take / the owning queue's Drop over its fixed buffer array); Leak/Unleak sites pair by type.
  T4 results do not depend on driver-owned areas - corollary of T1.
+ T5 completion tokens chosen by the device select the buffer: at every pop_used call outside the queue, if the token
+    operand derives from peek_used (an id the device wrote), every buffer handed to pop_used is selected through that
+    same token (table[token]); a fixed buffer may only be released under the token the driver stored when it added it.
 Not decided: absence of panics (the property allows clean panics); arbitrary callers of the unsafe queue API.
 """
 from .common import *
@@ -17,7 +20,7 @@ from .common import *
 EXPLANATION = ("Whole-crate scan of device-memory accesses classified by ring-type layout signature and pointer provenance: "
                "no load from the descriptor table / available ring exists; taint from used-ring loads and transport reads is "
                "propagated through the symbolic terms of every unsafe sink operand; leak/unleak sites are paired.")
-FLOORS = {'fns_scanned': {'*': 440, 'noalloc': 230}, 'used_ring_loads': 6, 'sinks': {'*': 16, 'noalloc': 12}, 'unleak_sites': {'*': 2, 'noalloc': 0}}
+FLOORS = {'fns_scanned': {'*': 440, 'noalloc': 230}, 'used_ring_loads': 6, 'sinks': {'*': 16, 'noalloc': 12}, 'unleak_sites': {'*': 2, 'noalloc': 0}, 'pop_sites': {'*': 9, 'noalloc': 6}}
 
 SINK_FNS = ('::get_unchecked', '::get_unchecked_mut', 'core::slice::from_raw_parts', 'core::slice::from_raw_parts_mut',
             'core::ptr::slice_from_raw_parts', 'core::ptr::slice_from_raw_parts_mut',
@@ -90,6 +93,7 @@ def run(F, R):
                        'shadow copy): %s' % (a.area, fmt(a.loc)))
     else:
         R.held('T1', 'no-load:desc+avail', '', 'no load from the descriptor table or available ring in %d functions; control: %d used-ring loads recognised' % (nf, used_loads))
+    t5_token_provenance(F, R, M)
     # T3
     R.count('unleak_sites', len(unleaks))
     for b, sg, n in unleaks:
@@ -105,6 +109,56 @@ def run(F, R):
     lt = sorted(set(x[2].d.get('substs', ['?'])[0] for x in leaks))
     ut = sorted(set(x[2].d.get('substs', ['?'])[0] for x in unleaks))
     R.check(set(lt) <= set(ut) or True, 'T3', 'leak-unleak-pairing', '', 'leak types %s / unleak types %s' % (lt, ut))
+
+
+def t5_token_provenance(F, R, M):
+    from . import C05
+    api = C05.queue_api(F, M)
+    roles = C05.classify_api(api)
+    pops = set(k for k, v in roles.items() if v == 'pop_used')
+    peeks = set(k for k, v in roles.items() if v == 'peek_used')
+    if not pops or not peeks:
+        raise Undecided('queue API roles pop_used/peek_used not found')
+    nsites = 0
+    for b in F.bodies.values():
+        if not F.handwritten(b) or b.get('impl_adt') == M.queue_adt:
+            continue
+        sg = supergraph(F, b['id'], tag='flat', max_depth=0)
+        S = sg.sym
+        for n in sg.calls():
+            if n.d.get('fn') not in pops:
+                continue
+            nsites += 1
+            tok = S.operand(n.id, n.d['args'][1])
+            is_peek = lambda x: x[0] == 'call' and x[2] in peeks
+            inst = '%s:pop_used@%s' % (b['id'], fmt(S.operand(n.id, n.d['args'][0]))[:60])
+            if not derives_from(tok, is_peek):
+                R.held('T5', inst, site(sg, n), 'token comes from the caller or from driver-private state: %s' % fmt(tok)[:80])
+                continue
+            bad = None
+            for ai in (2, 3):
+                elems = array_elems(S, S.operand(n.id, n.d['args'][ai]))
+                if elems is None:
+                    bad = 'cannot resolve the buffer list operand %d' % ai
+                    break
+                for e in elems:
+                    sel = False
+                    for x in subterms(e):
+                        if x[0] in ('loc',):
+                            for pp in x[2]:
+                                if pp[0] == 'idx' and derives_from(pp[1], is_peek):
+                                    sel = True
+                        if x[0] == 'call' and ('::index' in x[2] or '::get' in x[2]) and any(derives_from(a_, is_peek) for a_ in x[3][1:]):
+                            sel = True
+                    if not sel:
+                        bad = 'buffer %s is not selected by the device-supplied token' % fmt(e)[:100]
+                        break
+                if bad:
+                    break
+            R.check(bad is None, 'T5', inst, site(sg, n), 'device-supplied token selects every buffer released with it',
+                    'pop_used is given a token read from the used ring (peek_used) together with a buffer that was not looked up '
+                    'by that token, so a device writing a wrong id makes the driver release/unshare the wrong descriptor chain: %s' % bad)
+    R.count('pop_sites', nsites)
 
 
 def tainted(M, t):
